@@ -130,6 +130,22 @@ func c06Cipher(c *core.Ctx, k *core.Case) {
 			c.Fail(k, "input-modified", fmt.Sprintf("NEA%d modified its input buffer", alg))
 		}
 		c.Hold(k, fmt.Sprintf("security.NEA%d", alg), got)
+		if nbits > 0 && nbits <= 4096 {
+			if _, owned := ownedTwice(func() []byte {
+				var o []byte
+				switch alg {
+				case 1:
+					o, _ = security.NEA1(key, count, bearer, dir, cloneB(in), uint32(nbits))
+				case 2:
+					o, _ = security.NEA2(key, count, uint8(bearer), uint8(dir), cloneB(in))
+				case 3:
+					o, _ = security.NEA3(key, count, uint8(bearer), uint8(dir), cloneB(in), uint32(nbits))
+				}
+				return o
+			}); owned != "" {
+				c.Fail(k, fmt.Sprintf("result-not-owned:NEA%d", alg), owned)
+			}
+		}
 	}
 	c.Eval(1)
 	if err != nil {
@@ -529,6 +545,14 @@ func c07Mac(c *core.Ctx, k *core.Case) {
 	}
 	got := uint32(mac[0])<<24 | uint32(mac[1])<<16 | uint32(mac[2])<<8 | uint32(mac[3])
 	c.Hold(k, k.Target, mac)
+	if nbits <= 4096 && nbits%8 == 0 {
+		if _, owned := ownedTwice(func() []byte {
+			o, _ := security.NASMacCalculate(uint8(alg), key, count, uint8(bearer), uint8(dir), cloneB(msg[:nbits/8]))
+			return o
+		}); owned != "" {
+			c.Fail(k, fmt.Sprintf("result-not-owned:NASMacCalculate:alg%d", alg), owned)
+		}
+	}
 	if got != want {
 		tail := "clean"
 		if k.I[6] != 0 {
